@@ -76,8 +76,13 @@ enum { K_APP, K_HEARTBEAT, K_SEQRESET, K_LOGOUT, NKIND };
 /* message i of kind k with fresh symbolic encoding */
 static void world_msg(int i, int kind)
 {
-  const uint8_t *t = kind == K_APP ? ty_app : kind == K_HEARTBEAT ? ty_hb : kind == K_SEQRESET ? ty_sr : ty_lo;
-  vf_sb_msg_init(&the_msg[i], &the_hdr[i], (uint8_t*)t, (struct S_struct_2eFIX8_3a_3aF8MetaCntx*)ctx_raw);
+  struct S_struct_2eFIX8_3a_3aF8MetaCntx *cx = (struct S_struct_2eFIX8_3a_3aF8MetaCntx*)ctx_raw;
+  /* one call per kind with a constant string: a std::string of symbolic length inside the message object would be
+     written at a symbolic offset and cost the whole object its field sensitivity (vptr loads stop folding) */
+  if (kind == K_APP) vf_sb_msg_init(&the_msg[i], &the_hdr[i], (uint8_t*)ty_app, cx);
+  else if (kind == K_HEARTBEAT) vf_sb_msg_init(&the_msg[i], &the_hdr[i], (uint8_t*)ty_hb, cx);
+  else if (kind == K_SEQRESET) vf_sb_msg_init(&the_msg[i], &the_hdr[i], (uint8_t*)ty_sr, cx);
+  else vf_sb_msg_init(&the_msg[i], &the_hdr[i], (uint8_t*)ty_lo, cx);
   a_admin[i] = kind != K_APP;
   uint8_t n = nondet_u8(); VF_ASSUME(n >= 2 && n <= ENC_MAX); a_elen[i] = n;
   for (int b = 0; b < ENC_MAX; b++) { uint8_t c = nondet_u8(); VF_ASSUME(c != 0); a_enc[i][b] = c; }
